@@ -7,8 +7,8 @@ ID = "C15"
 LEAN_TARGETS = ["DVP.Properties.C15"]
 PROPERTY_FILES = ["DVP/Properties/C15.lean"]
 RULE = ("a bank of smooth systems F: R^n -> R^n (n = 1..12, shapes (n,), (2,3)->(2,3), scalar), with and without a user Jacobian, good and bad "
-        "starting points, singular Jacobians, systems without a root; both dispatch paths of nonlinear_roots (float64 via MINPACK, longdouble "
-        "via the built-in dogleg) and the three solvers directly. What each back end returned is recorded (wrappers around the module's own "
+        "starting points, singular Jacobians, systems without a root (incl. x^2+1 and an inconsistent singular linear system, where a trial step has no defined gain); both dispatch paths of nonlinear_roots (float64 via MINPACK, longdouble "
+        "via the built-in dogleg) and the three solvers directly (hybrj in float64 and longdouble). What each back end returned is recorded (wrappers around the module's own "
         "functions) and fed to the Lean decision model, whose verdict and 'precision' must equal the front end's; every claimed success is "
         "checked against ||F(x)|| <= 100 tol sqrt(n) and the shape of the guess. non-trivial = nonlinear system with n >= 2; distinct by (system, start, dtype, jac)")
 ASSUMPTIONS = ["the iterations themselves (convergence) are outside the model; MINPACK's own success flag is an input"]
@@ -28,6 +28,10 @@ def bank(rng):
                 lambda x: np.array([[-np.sin(x[0]), -1.0], [1.0, np.cos(x[1])]]), np.array([rng.uniform(-2, 2), rng.uniform(-2, 2)]), True))
     out.append(("arctan-no-root", lambda x: np.arctan(x) - 2.0, lambda x: np.diag(1.0 / (1.0 + x ** 2)), np.array([rng.choice([0.0, 0.5, 3.0])]), False))
     out.append(("exp-no-root", lambda x: np.exp(x) + 0.1, lambda x: np.diag(np.exp(x)), np.array([0.5]), False))
+    # systems on which a trial step has no defined gain (0/0 at a stationary point of a singular Jacobian, inf/inf on runaway iterates)
+    out.append(("square-plus-one", lambda x: x ** 2 + 1.0, lambda x: np.diag(2.0 * x), np.array([rng.choice([0.3, 0.5, 0.7, 2.0])] * 3), False))
+    out.append(("inconsistent-singular-linear", lambda x: np.array([x[0] + x[1] - 1.0, x[0] + x[1] + 1.0]),
+                lambda x: np.array([[1.0, 1.0], [1.0, 1.0]]), np.array([rng.uniform(-1, 1), rng.uniform(-1, 1)]), False))
     out.append(("singular-jac", lambda x: np.array([x[0] ** 2, x[1] ** 2 + x[0]]), lambda x: np.array([[2 * x[0], 0.0], [1.0, 2 * x[1]]]), np.array([0.5, 0.5]), True))
     out.append(("matrix-shape", lambda x: x ** 3 - np.array([[1.0, 8.0, 0.125], [27.0, -1.0, 0.001]]), None, np.ones((2, 3)), True))
     out.append(("scalar", lambda x: x ** 3 - 2.0, None, np.array(1.0), True))
@@ -97,12 +101,12 @@ def run(ctx):
                     if succ:
                         path = "hybrj" if T is np.longdouble else "minpack"
                         ctx.oracle("success-means-small-residual", res <= 100 * tol * math.sqrt(nn), dict(inp, residual=res, x=np.asarray(x, dtype=float).reshape(-1)[:4].tolist(), reported_precision=float(prec)),
-                                   key="hybrj-success-without-residual" if path == "hybrj" else "minpack-success-without-residual",
+                                   key=("hybrj-success-without-residual:%s:%s" % (name.split("-%d" % nn)[0] if name.startswith(("linear-", "cubic-diag-")) else name, np.dtype(T).name)) if path == "hybrj" else "minpack-success-without-residual",
                                    what="success reported with ||F(x)|| = %.3e (tol %.1e, n=%d); reported precision %.3e" % (res, tol, nn, float(prec)))
                         ctx.oracle("shape-preserved", np.shape(x) == np.shape(x0), inp, what="result shape %s, guess shape %s" % (np.shape(x), np.shape(x0)))
                     if not has_root:
                         ctx.oracle("no-root-no-success", not succ, dict(inp, x=np.asarray(x, dtype=float).reshape(-1)[:3].tolist(), residual=res),
-                                   key="hybrj-success-without-residual" if T is np.longdouble else "no-root-success",
+                                   key=("hybrj-success-without-residual:%s:%s" % (name, np.dtype(T).name)) if T is np.longdouble else "no-root-success",
                                    what="system without a root: success claimed at x=%s with ||F|| = %.3e" % (np.asarray(x, dtype=float).reshape(-1)[:3], res))
                     # decision model
                     if np.ndim(x0) > 0:      # (scalars recurse through the vector path: the spy sees the inner call)
@@ -134,22 +138,26 @@ def run(ctx):
             if np.ndim(x0) == 0 or J is None:
                 continue
             tol = 1e-10
-            for solver in ("hybrj", "ntr"):
+            for solver in ("hybrj", "hybrj64", "ntr"):
                 inp = dict(kind="solver", solver=solver, system=name, x0=np.asarray(x0, dtype=float).tolist())
                 try:
-                    if solver == "hybrj":
-                        x, (succ, dxn, it, Fv) = OPT.hybrj(F, np.asarray(x0, dtype=np.longdouble), J, tol=tol)
+                    if solver.startswith("hybrj"):
+                        x, (succ, dxn, it, Fv) = OPT.hybrj(F, np.asarray(x0, dtype=np.longdouble if solver == "hybrj" else np.float64), J, tol=tol)
                     else:
                         x, (succ, it, nf, nj, pr) = OPT.newtontrustregion(F, np.asarray(x0, dtype=np.float64), jac=J, tol=tol)
                 except Exception as e:
-                    ctx.count("solver-exception:" + solver)
+                    ctx.count("solver-exception:" + solver + ":" + name + ":" + type(e).__name__)
                     continue
                 if bool(succ):
                     res = float(np.linalg.norm(np.asarray(F(np.asarray(x)), dtype=float)))
                     ctx.oracle("solver-success-means-small-residual", res <= 100 * tol * math.sqrt(np.size(x0)), dict(inp, residual=res),
-                               key="hybrj-success-without-residual" if solver == "hybrj" else "ntr-success-without-residual",
+                               key=("hybrj-success-without-residual:%s:%s" % (name.rsplit("-", 1)[0] if name.startswith(("linear-", "cubic-diag-")) else name, "float128" if solver == "hybrj" else "float64")) if solver.startswith("hybrj") else "ntr-success-without-residual:" + name,
                                what="%s reported success with ||F|| = %.3e" % (solver, res))
-                ctx.count("solver:%s:%s" % (solver, "success" if bool(succ) else "failure"))
+                if not has_root:
+                    ctx.oracle("no-root-no-success", not bool(succ), dict(inp, x=np.asarray(x, dtype=float).reshape(-1)[:3].tolist()),
+                               key=("hybrj-success-without-residual:%s:%s" % (name, "float128" if solver == "hybrj" else "float64")) if solver.startswith("hybrj") else "ntr-success-without-residual:" + name,
+                               what="%s: system without a root, success claimed at x=%s" % (solver, np.asarray(x, dtype=float).reshape(-1)[:3]))
+                ctx.count("solver:%s:%s:%s" % (solver, name if not has_root else "has-root", "success" if bool(succ) else "failure"))
 
 
 def replay(rep):
